@@ -1,6 +1,6 @@
 (* C04 Watch runs once after its condition holds; Alarm re-arms. Statements only. *)
 From Coq Require Import ZArith List Bool Arith.
-From OP Require Import lib.Obs model.Interp model.InterpRun model.C02 model.C04 proofs.Interp_inv proofs.C05_proofs proofs.Interp_fields proofs.C02_proofs model.C05 proofs.C05_pending proofs.Interp_stack proofs.C02_order proofs.C04_order.
+From OP Require Import lib.Obs model.Interp model.InterpRun model.C02 model.C04 proofs.Interp_inv proofs.C05_proofs proofs.Interp_fields proofs.C02_proofs model.C05 proofs.C05_pending proofs.Interp_stack proofs.C02_order proofs.C04_order model.C12 proofs.C12_proofs proofs.C12_runs.
 Import ListNotations.
 Open Scope Z_scope.
 
@@ -54,6 +54,24 @@ Theorem C04_watch_body_runs_only_after_activation : forall p ts, wf_b p = true -
          (states p [FVisit 0] (InterpRun.init p) 0 ts).
 Proof. exact watch_body_runs_only_after_activation. Qed.
 Print Assumptions C04_watch_body_runs_only_after_activation.
+
+(* the same in runs with cancel / force requests at any ticks (run function of model/C12.v): requests change no started
+   or activated flag and no generator; and "nor after it was cancelled": from the state in which a Watch is cancelled and not
+   activated on, no line of its body is started *)
+Theorem C04_watch_body_runs_only_after_activation_with_requests : forall p fl ts, wf_b p = true ->
+  Forall (fun s => forall c q, n_parent (nd p c) = Some q -> n_kind (nd p q) = KWatch ->
+                               C02_order.plain p c = true -> C02_order.plain p q = true ->
+                               started (st s c) = true -> activated (st s q) = true)
+         (rstates p fl [FVisit 0] (InterpRun.init p) 0 ts).
+Proof. intros p fl ts. exact (req_watch_body_only_after_activation p fl ts). Qed.
+Print Assumptions C04_watch_body_runs_only_after_activation_with_requests.
+Theorem C04_a_cancelled_watch_never_runs_its_body : forall p fl ts q,
+  wf_b p = true -> n_kind (nd p q) = KWatch -> C02_order.plain p q = true ->
+  from_then (dead q)
+            (fun s => forall c, n_parent (nd p c) = Some q -> C02_order.plain p c = true -> started (st s c) = false)
+            (rstates p fl [FVisit 0] (InterpRun.init p) 0 ts).
+Proof. exact cancelled_watch_body_never_starts. Qed.
+Print Assumptions C04_a_cancelled_watch_never_runs_its_body.
 
 (* PARTIAL. Decided by the Coq monitor on the real interpreter: a body line of an ALARM starts only while the Alarm is
    activated (for Watches: theorem above); a Watch outside Alarm and Macro bodies never loses its activation; nothing of a body starts after the enclosing block
